@@ -129,6 +129,13 @@ func run(c *core.Ctx) int {
 	for i := 0; i < c.N(150, 3000); i++ {
 		add(pcase{Directed: "cross-module-listeners", Prog: rng.U64()})
 	}
+	// linked modules: link decisions and shared-memory observations of importers around the exporter's current size
+	// and maximum must not depend on the point (props/c12/linked.go)
+	for _, p := range pts {
+		if p.Cache <= 1 {
+			add(pcase{Directed: "linked-modules", Prog: rng.U64(), P: p})
+		}
+	}
 	// stage 1: prime the warm directories in separate processes
 	var primes []json.RawMessage
 	for _, pc := range raw {
@@ -279,6 +286,9 @@ func child(mode string, in json.RawMessage) any {
 			}
 		}
 		return pr
+	}
+	if pc.Directed == "linked-modules" {
+		return linkedCase(pc)
 	}
 	r := core.NewRng(int64(pc.Prog), 5)
 	cfg := wgen.DefaultConfig(r)
